@@ -55,6 +55,7 @@ def evaluate(source, pid, name, checks, tier='quick'):
 		env = dict(os.environ)
 		env['VERIF_REPO'] = str(worktree)
 		env['VERIF_WORK'] = str(work)
+		env.setdefault('VERIF_COQ_FROM_HEAD', '1')
 		for check in checks:
 			start = time.time()
 			status, out = sh(['/usr/bin/python3', str(VERIF / 'run.py'), 'check', check, '--tier', tier], cwd=VERIF, env=env, timeout=7200)
